@@ -115,6 +115,9 @@ impl Stats {
     }
 }
 
+/// Violation classes listed as known findings for the property being checked.
+pub static KNOWN_CLASSES: std::sync::OnceLock<Vec<String>> = std::sync::OnceLock::new();
+
 pub enum Verdict {
     Ok { hash: u64, nontrivial: bool },
     Bad(Violation),
@@ -199,6 +202,7 @@ impl<'a, H: Hist> Dfs<'a, H> {
             st.evaluations += 1;
             st.transitions += 1;
             st.max_depth = st.max_depth.max(k);
+            let mut known_continue = false;
             match self.h.run(hist, st) {
                 Verdict::Ok { hash, nontrivial } => {
                     st.state(hash, nontrivial);
@@ -212,15 +216,24 @@ impl<'a, H: Hist> Dfs<'a, H> {
                     let mut s2 = Stats::default();
                     match self.h.run(hist, &mut s2) {
                         Verdict::Bad(v2) if v2.class == v.class && v2.detail == v.detail => {
+                            // a known finding does not end the exploration below it
+                            let known = KNOWN_CLASSES.get().map_or(false, |k| k.contains(&v.class));
                             st.violation(v);
-                            st.pruned += 1;
+                            if known {
+                                st.bump("extended_below_known_findings", 1);
+                                known_continue = true;
+                            } else {
+                                st.pruned += 1;
+                            }
                         }
                         _ => st.machinery(format!(
                             "non-deterministic verdict on replay of {:?}",
                             hist.iter().map(|o| self.h.show(o)).collect::<Vec<_>>()
                         )),
                     }
-                    return;
+                    if !known_continue {
+                        return;
+                    }
                 }
                 Verdict::Machinery(m) => {
                     st.machinery(m);
